@@ -355,6 +355,57 @@ class ServerProp(Prop):
                                    'agreement of the kernel model with the real sockets on every generated history'}
 
 
+def large_cases(prop, rng, tier, n_quick, n_thorough):
+    """responses larger than the socket buffer: outside the executable kernel model (K3: the theorems cover any partial
+    write), decided on the implementation alone: the client reads in rounds, the server is polled only while its epoll
+    descriptor signals.  Every second history pipelines two requests and queues the second answer behind the
+    partially written large one."""
+    out = []
+    for i in range(n_quick if tier == 'quick' else n_thorough):
+        h = Hist(rng)
+        pipelined = (i % 2 == 1)
+        cs = [h.connect() for _ in range(1 if pipelined else rng.randint(1, 2))]
+        h.ops.append([11, 4])
+        for c in cs:
+            h.request(c, pipelined=2 if pipelined else 1, poll_between=False)
+        h.ops.append([11, 8])
+        size = rng.choice([300000, 700000] if tier == 'quick' else [250000, 300000, 700000, 1500000])
+        body = (b'0123456789abcdef' * (size // 16 + 1))[:size]
+        for c in cs:
+            h.ops.append([7, 0, [1, 1, [[0, body]]]])
+        if pipelined:
+            h.ops.append([12, 0])
+        for _ in range(size // 60000 + 6):
+            h.ops.append([11, 6])
+            for c in cs:
+                h.ops.append([5, c])
+        for c in cs:
+            h.request(c, poll_between=False)
+        h.finish()
+        nxt = 2 if pipelined else 1
+        # which of the two pipelined requests token 0 names depends on the interpreter's canonical order of a poll's yields
+        expect = [[c, ['BIG'] + (['/c%d/r0|/c%d/r1' % (c, c)] if pipelined else []) + ['/c%d/r%d' % (c, nxt)]] for c in cs]
+        out.append(prop.mk(h, 0, {'kind': 'large-response', 'oracle_only': True, 'size': size, 'clients': cs,
+                                  'pipelined': pipelined, 'expect': expect}))
+    return out
+
+
+def large_oracle(prop, t, m, a, v):
+    """each client of a large-response history receives exactly the supplied responses, whole and in order"""
+    big = (b'0123456789abcdef' * (m['size'] // 16 + 1))[:m['size']]
+    for c, exp in m['expect']:
+        rs = pyhttp.read_all(a['rx'].get(c, b''))
+        bodies = [b for (_, _, b) in (rs or [])]
+        ok = rs is not None and len(bodies) == len(exp) and all(
+            (b == big) if e == 'BIG' else (b in [b'echo:' + x.encode() for x in e.split('|')]) for (b, e) in zip(bodies, exp))
+        if not ok:
+            v.append(prop.viol(t, 'client %d receives the %d-byte response in full, then %s' % (c, m['size'], ', '.join(exp[1:])),
+                               'received %d bytes: %s' % (len(a['rx'].get(c, b'')),
+                                                          'unparseable' if rs is None else repr([len(b) for b in bodies])), 'large'))
+            return True
+    return False
+
+
 def check_client_bytes(prop, t, a, v, clients=None):
     """C07's oracle: every byte a client receives belongs to a well-formed response that is either the
     application's answer to one of that client's own requests (at most once, in the order supplied) or a
@@ -393,7 +444,7 @@ class C07(ServerProp):
     pid = 'C07'
     rule = ('histories of up to 4 clients x {connect, send piece, close, half-close, drain} x application {poll, respond to any '
             'outstanding request, flush}: exhaustive short histories over a small op alphabet, random longer ones, and the '
-            'family "client closes with requests in flight, a new client connects, the application answers late"; every '
+            'family "client closes with requests in flight, a new client connects, the application answers late"; responses larger than the socket buffer (short writes), also pipelined; every '
             'application answer echoes the URI (client tag + sequence) of the request it answers; non-trivial = at least two '
             'clients or a client that goes away')
 
@@ -487,12 +538,21 @@ class C07(ServerProp):
             h.ops = ops
             h.sent = {}
             out.append(self.mk(h, 0, {'kind': 'exhaustive-%d' % depth}))
+        # responses larger than the socket buffer (short writes on the real socket), also with a second answer queued
+        # behind the partially written one
+        out += large_cases(self, rng, tier, 4, 40)
         return out
 
     def oracle(self, cases, impl):
         v = []
         for cid, t, m in cases:
             a = self.analyse(t, impl.get(cid, []))
+            if m.get('kind') == 'large-response':
+                if a['errs']:
+                    v.append(self.viol(t, 'no call fails', a['errs'][0][1], 'call-failed'))
+                else:
+                    large_oracle(self, t, m, a, v)
+                continue
             check_client_bytes(self, t, a, v)
         return v
 
@@ -541,27 +601,7 @@ class C08(ServerProp):
                 h.ops.append([5, c])
             h.finish()
             out.append(self.mk(h, 0, {'kind': 'batch-flush-drain'}))
-        # responses larger than the socket buffer: outside the kernel model (K3), decided on the implementation alone:
-        # the client reads in rounds, the server is polled only while its epoll descriptor signals
-        for _ in range(6 if tier == 'quick' else 60):
-            h = Hist(rng)
-            cs = [h.connect() for _ in range(rng.randint(1, 2))]
-            h.ops.append([11, 4])
-            for c in cs:
-                h.request(c, poll_between=False)
-            h.ops.append([11, 8])
-            size = rng.choice([300000, 700000] if tier == 'quick' else [250000, 300000, 700000, 1500000])
-            body = (b'0123456789abcdef' * (size // 16 + 1))[:size]
-            for c in cs:
-                h.ops.append([7, 0, [1, 1, [[0, body]]]])
-            for _ in range(size // 60000 + 6):
-                h.ops.append([11, 6])
-                for c in cs:
-                    h.ops.append([5, c])
-            for c in cs:
-                h.request(c, poll_between=False)
-            h.finish()
-            out.append(self.mk(h, 0, {'kind': 'large-response', 'oracle_only': True, 'size': size, 'clients': cs}))
+        out += large_cases(self, rng, tier, 6, 60)
         return out
 
     def oracle(self, cases, impl):
@@ -573,17 +613,7 @@ class C08(ServerProp):
                 v.append(self.viol(t, 'polling and responding never fail for well-behaved clients', a['errs'][0][1], 'call-failed'))
                 continue
             if m.get('kind') == 'large-response':
-                for c in m['clients']:
-                    rs = pyhttp.read_all(a['rx'].get(c, b''))
-                    bodies = [b for (_, _, b) in (rs or [])]
-                    ok = rs is not None and len(bodies) == 2 and len(bodies[0]) == m['size'] and \
-                        bodies[0] == (b'0123456789abcdef' * (m['size'] // 16 + 1))[:m['size']] and bodies[1] == b'echo:/c%d/r1' % c
-                    if not ok:
-                        v.append(self.viol(t, 'client %d receives the %d-byte response in full, then the answer to its next request' % (c, m['size']),
-                                           'received %d bytes: %s' % (len(a['rx'].get(c, b'')),
-                                                                      'unparseable' if rs is None else repr([len(b) for b in bodies])), 'large'))
-                        break
-                else:
+                if not large_oracle(self, t, m, a, v):
                     finals = [ln for (i, ln) in a['polls'][-2:]]
                     if len(finals) == 2 and not all(x.endswith('blocked') for x in finals):
                         v.append(self.viol(t, 'epoll stops signalling once no input, output or unanswered request remains',
